@@ -240,7 +240,10 @@ class Program:
             # a gate and its inverse are different operations
             dagger_eq = getattr(self_cmd.op, "dagger", False) == getattr(prog_cmd.op, "dagger", False)
 
-            if not all((names_eq, param_eq, modes_eq, dagger_eq)):
+            # so are measurements with different post-selection values or dark counts
+            options_eq = pu.measurement_options(self_cmd.op) == pu.measurement_options(prog_cmd.op)
+
+            if not all((names_eq, param_eq, modes_eq, dagger_eq, options_eq)):
                 return False
 
         return True
